@@ -7,14 +7,19 @@ frozen for H=300 virtual s (> max_eject_attempts x (eject + missing timeout) + 6
   delivery        : for every final target, requests issued <= balls physically delivered + still queued + reported
                     missing/failed;
   retry_or_report : every physically failed coil eject is followed by another coil command or a failed/missing/broken
-                    event of that device.
+                    event of that device;
+  save_requested  : every ball a ball save announced (ball_save_<name>_saving_ball, balls=n) has been requested for the
+                    playfield by that ball save (Playfield.add_ball called from BallSave) - eject_delay <= 8 s is far
+                    inside the horizon.
 """
 PROPERTY = "C05"
 LEVEL = "exploration"
 TECHNIQUE = ("runtime monitoring: real ball devices against an independent physical world; bounded-progress oracle "
              "in virtual time at frozen-world horizons, request/delivery accounting at the ball-request boundary")
-RULE = ("case = generated topology x physics seed x fault schedule (failure runs 0..max_eject_attempts+1) x script "
-        "of requests (ball start, ball save, multiball start/add, lock release, request_ball, game end collect) with "
+RULE = ("case = generated topology x physics seed x fault schedule (failure runs 0..max_eject_attempts+1) x holds of "
+        "the ball_eject_attempt queue event x script of requests (ball start, ball save with/without eject_delay and "
+        "balls_to_save 1/2/3/unlimited, multiball start/add incl. bursts of close drains under an active save, lock "
+        "release, request_ball, game end collect) with "
         "rest points; distinct = topology kind, ball count, op-kind sequence, fault pattern; non-trivial = a frozen "
         "horizon was reached and the idle and delivery clauses were evaluated with at least one request issued")
 LEVEL_TEXT = ("Exploration of a liveness property restated as bounded progress: 'eventually' is decided H=300 virtual "
@@ -37,6 +42,9 @@ ASSUMPTIONS = [
     "a physically failed eject counts as handled when the coil fires again, the player plunges again, MPF posts a "
     "failed/missing/broken event, MPF treats a stray ball as having skipped a mechanical plunger, or another ball "
     "reached the target and MPF confirmed with it",
+    "a ball save's announced saves are matched against Playfield.add_ball calls made from BallSave code (caller "
+    "identified on the call stack); ball saves are configured without delayed_eject_events and without ball_locks",
+    "handlers hold balldevice_<dev>_ball_eject_attempt for 0..10 virtual s (like diverters do); never indefinitely",
     "zero_time_livelock: 100000 loop iterations without the virtual clock advancing (deterministic, not wall clock)",
     "same physical envelope as C04 (no diverters, one ball per pulse, no jam switches, entrance devices without "
     "undetectable faults, bounce on overflow)",
@@ -44,8 +52,8 @@ ASSUMPTIONS = [
 HORIZONS = {"progress_horizon_virtual_s": 300, "settle_cap_virtual_s": 4000}
 TIERS = {"quick": {"cases": 640, "batch": 10, "case_timeout": 120},
          "thorough": {"cases": 12000, "batch": 50, "case_timeout": 120}}
-MIN_EVALS = {"quick": {"idle_or_broken": 1500, "delivery": 600, "retry_or_report": 100},
-             "thorough": {"idle_or_broken": 40000, "delivery": 20000, "retry_or_report": 2500}}
+MIN_EVALS = {"quick": {"idle_or_broken": 1500, "delivery": 600, "retry_or_report": 100, "save_requested": 150},
+             "thorough": {"idle_or_broken": 40000, "delivery": 20000, "retry_or_report": 2500, "save_requested": 3000}}
 SHRINK_KEYS = ["ops"]
 
 
